@@ -268,3 +268,54 @@ func TestC08_FindContent(t *testing.T) { pbt.Run(t, "C08", "findcontent", genC08
 
 var _ = enr.Record{}
 var _ = rlp.EncodeToBytes
+
+// ---------------------------------------------------------------------------
+// C08 sub-scenario: the three real storage adapters as the responder's store.
+// Nothing is stored, so no key is held: the answer must be the ENRs list (or an
+// error / empty reply for a key the adapter cannot read), never content.
+
+type c08Adapter struct {
+	Network string
+	Key     []byte
+}
+
+func genC08Adapter(t *rapid.T) c08Adapter {
+	network := rapid.SampledFrom([]string{"history", "beacon", "state"}).Draw(t, "network")
+	return c08Adapter{Network: network, Key: genKeyBytes(t, network)}
+}
+
+func runC08Adapter(p c08Adapter, c *stats.Case) error {
+	env, err := newC01Env(p.Network, simnet.NewHub())
+	if err != nil {
+		return fmt.Errorf("harness: %v", err)
+	}
+	defer env.close()
+	c.Class("adapter:" + p.Network)
+	asker := env.senders[2]
+	reply, herr := env.live.P.VerifHandleFindContent(asker, &net.UDPAddr{IP: asker.IP(), Port: asker.UDP()}, &portalwire.FindContent{ContentKey: p.Key})
+	if herr != nil || len(reply) == 0 {
+		c.Class("adapter:error-reply")
+		return nil
+	}
+	if len(reply) < 2 || reply[0] != portalwire.CONTENT {
+		return fmt.Errorf("reply is not a CONTENT message: %x", clip(reply))
+	}
+	if reply[1] != portalwire.ContentEnrsSelector {
+		return fmt.Errorf("%s adapter holds nothing, but FINDCONTENT for key %x was answered with selector %d (%d body bytes) instead of the ENRs list", p.Network, clip(p.Key), reply[1], len(reply)-2)
+	}
+	c.NT("adapter:enrs-for-unheld-key")
+	if len(p.Key) > 0 {
+		known := false
+		for _, s := range selectors[p.Network] {
+			if p.Key[0] == s {
+				known = true
+			}
+		}
+		if !known {
+			c.NT("adapter:unknown-selector")
+		}
+	}
+	return nil
+}
+
+func TestC08_Adapters(t *testing.T) { pbt.Run(t, "C08", "adapters", genC08Adapter, runC08Adapter) }
